@@ -47,7 +47,7 @@ manifest = {
     "setup_cmd": "cd engine && GOFLAGS=-mod=vendor GOTOOLCHAIN=local GOPROXY=off go build -o ../bin/gocv ./cmd/gocv",
     "hooks": {
         "guard": "verif",
-        "enable": "go build tag `verif` (-tags verif): the only hook files are the contract files zz_contracts_verif.go, one per package under contract: //@ comment lines read by gocv and, compiled only under the tag, ghost declarations used only by contracts (one ghost variable in database/, one lemma function in protocol/state/ that no production code calls); without the tag the files do not exist for the compiler",
+        "enable": "go build tag `verif` (-tags verif): the only hook files are the contract files zz_contracts_verif.go, one per package under contract: //@ comment lines read by gocv and, compiled only under the tag, ghost declarations used only by contracts (two ghost variables in database/ (the key sets of the checkpoint and header LRU caches), one lemma function in protocol/state/ that no production code calls); without the tag the files do not exist for the compiler",
         "baseline_off_cmd": "for m in $(cat /w/out/gomods.txt); do MF=$(cd /repo/$m && . /w/out/goenv.sh && gomodflag); (cd /repo/$m && go test $MF -json -vet=off -count=1 -timeout 25m ./...); done",
         "source_commits": hook_commits,
         "add_only": True,
